@@ -1080,7 +1080,10 @@ func (env *Env) conversion(to types.Type, arg ast.Expr, pos token.Pos) Val {
 	}
 	if t.Sort == "UPtr" && ts == SBV64 {
 		env.c.declOnce("(declare-fun uptr.addr (UPtr) (_ BitVec 64))")
-		return Val{T: Term{app("uptr.addr", t.S), SBV64}, GoT: to}
+		env.c.declOnce("(declare-fun uptr.ofaddr ((_ BitVec 64)) UPtr)")
+		r := Term{app("uptr.addr", t.S), SBV64}
+		env.st.Assume(eq(app("uptr.ofaddr", r.S), t.S))
+		return Val{T: r, GoT: to}
 	}
 	if t.Sort == SString && strings.HasPrefix(ts, "Slice<") {
 		fn := "str2bytes"
